@@ -1319,6 +1319,25 @@ func c03Correspond(c *Ctx, or *Oracle, rng *rand.Rand, texts [][]byte, tags []st
 			lines = append(lines, co.op+" "+h)
 		}
 	}
+	// two independent formalisations of "valid JSON text": Spec.Meaning.parseTree and C01's validator model
+	var xl []string
+	for _, b := range texts {
+		h := hx(b)
+		xl = append(xl, "tree parse "+h, "wire valid 0 1 "+h)
+	}
+	xa := or.Ask(xl)
+	for i, b := range texts {
+		p, v := xa[2*i], xa[2*i+1]
+		if strings.HasPrefix(p, "ERR") || strings.HasPrefix(v, "ERR") {
+			fail("oracle: %s / %s", p, v)
+		}
+		pok, vok := p != "E", v == "ok"
+		c.Case("spec-vs-validator|"+string(b), true)
+		c.Hit("xcheck:" + map[bool]string{true: "valid", false: "invalid"}[pok])
+		if pok != vok && !(pok && strings.HasPrefix(v, "E depth")) { // the spec has no nesting limit
+			c.Violate("corr-spec-vs-validator", "tree parse ~ wire valid 0 1", b, map[string]any{"tree parse": trunc(p, 200), "wire valid": v})
+		}
+	}
 	c03LogLines(lines)
 	ans := or.Ask(lines)
 	k := 0
@@ -1537,6 +1556,17 @@ func c03Worker(c *Ctx, w int, nTexts int, fams [][]string) {
 		if or != nil {
 			c03LogLines(lines)
 			ans = or.Ask(lines)
+			vl := make([]string, n)
+			for i := range texts {
+				vl[i] = "wire valid 0 1 " + hx(texts[i].b)
+			}
+			for i, v := range or.Ask(vl) {
+				c.Case("spec-vs-validator|"+string(texts[i].b), true)
+				c.Hit("xcheck:valid")
+				if (ans[i] != "E") != (v == "ok") {
+					c.Violate("corr-spec-vs-validator", "tree parse ~ wire valid 0 1", texts[i].b, map[string]any{"tree parse": trunc(ans[i], 200), "wire valid": v})
+				}
+			}
 		}
 		var corrTexts [][]byte
 		var corrTags []string
@@ -1721,6 +1751,8 @@ func runC03(c *Ctx) {
 	if failure != nil {
 		panic(failure)
 	}
+	// call sequences over long-lived inputs, alone in this goroutine (decoder pools are per P)
+	c03Sequences(c, or, c.N(250, 6000))
 }
 
 // c03Replay re-runs one recorded input through the predicate (if the spec accepts it) and the correspondence.
@@ -1742,6 +1774,9 @@ func c03Replay(c *Ctx, fams [][]string) {
 	or := c.NewOracle()
 	if or == nil {
 		fail("replay needs the oracle")
+	}
+	if c03ReplaySeq(c, or, raw) {
+		return
 	}
 	rng := rand.New(rand.NewPCG(c.Seed, 5))
 	ref, class, dup := c03FromOracle(or.Ask1("tree parse "+hx(b)), func(lit, spec, r string) {
